@@ -28,11 +28,10 @@ Proof. exact rebuild_perm. Qed.
 Print Assumptions c08_rebuild_order_irrelevant.
 
 (* a fresh cache fed the node's current report and pods, in either order, holds the same sums
-   and returns the same estimates — provided the report carries an update time *)
+   and returns the same estimates — for ALL histories *)
 Theorem c08_fresh_cache_equal : forall cfg ops node n m,
   node <> 0 ->
   alookup node (run cfg ops) = Some n -> n_metric n = Some m ->
-  (is_some (m_ut m) = true \/ n_ut n = zero_time) ->
   forall feed, (feed = feed_metric_first \/ feed = feed_pods_first) ->
   exists n', alookup node (run cfg (feed node m (n_pods n))) = Some n'
     /\ n_pods n' = n_pods n /\ n_metric n' = Some m /\ n_sums n' = n_sums n
@@ -43,21 +42,9 @@ Print Assumptions c08_fresh_cache_equal.
 (* the same for the fresh sums as the observation function computes them *)
 Theorem c08_fresh_sums_equal : forall cfg ops node n m,
   alookup node (run cfg ops) = Some n -> n_metric n = Some m ->
-  (is_some (m_ut m) = true \/ n_ut n = zero_time) ->
   fresh_sums cfg n = n_sums n.
 Proof. exact fresh_equal. Qed.
 Print Assumptions c08_fresh_sums_equal.
-
-(* REFUTED without that proviso: a report without status.updateTime keeps the previous
-   report's update time, and the cached nodeDelta differs from the fresh cache's *)
-Theorem c08_sticky_update_time_refuted :
-  exists n, alookup 1 (run w_cfg w_ops) = Some n
-    /\ n_metric n = Some w_m2
-    /\ s_nodeDelta (n_sums n) = [0; 0]
-    /\ s_nodeDelta (fresh_sums w_cfg n) = [90; 209715200]
-    /\ fresh_sums w_cfg n <> n_sums n.
-Proof. exact sticky_update_time. Qed.
-Print Assumptions c08_sticky_update_time_refuted.
 
 (* ---- load-aware filtering ---- *)
 
@@ -268,10 +255,9 @@ Print Assumptions c08_table_frame.
 
 (* ---- the decision procedure run on implementation observables ---- *)
 
-(* MAIN: on every history whose reports carry update times the property's decision procedure
-   accepts the model's own observations (what Extract.run_case prints) *)
-Theorem c08_prop_code_model : forall cfg ops,
-  ops_timed ops = true -> prop_code cfg ops (run_obs cfg [] ops) = 0.
+(* MAIN: on EVERY history the property's decision procedure accepts the model's own
+   observations (what Extract.run_case prints) *)
+Theorem c08_prop_code_model : forall cfg ops, prop_code cfg ops (run_obs cfg [] ops) = 0.
 Proof. exact prop_code_model. Qed.
 Print Assumptions c08_prop_code_model.
 
@@ -281,23 +267,15 @@ Theorem c08_prop_code_spec : forall cfg ops obs,
 Proof. exact prop_code_spec. Qed.
 Print Assumptions c08_prop_code_spec.
 
-Theorem c08_holds_model : forall cfg ops,
-  ops_timed ops = true -> C08_holds cfg ops (run_obs cfg [] ops).
+Theorem c08_holds_model : forall cfg ops, C08_holds cfg ops (run_obs cfg [] ops).
 Proof. exact holds_model. Qed.
 Print Assumptions c08_holds_model.
 
 (* MAIN, on the wire: exactly what the driver evaluates (Extract.v extracts these definitions):
-   for every input whose reports carry update times, prop_case accepts run_case, and the
-   known-finding signature is not raised *)
-Theorem c08_prop_case_model : forall inp,
-  ops_timed (snd (decode inp)) = true -> prop_case inp (run_case inp) = 0.
+   for EVERY input, prop_case accepts run_case *)
+Theorem c08_prop_case_model : forall inp, prop_case inp (run_case inp) = 0.
 Proof. exact prop_case_model. Qed.
 Print Assumptions c08_prop_case_model.
-
-Theorem c08_finding_sig_model : forall inp,
-  ops_timed (snd (decode inp)) = true -> finding_sig inp (run_case inp) = 0.
-Proof. exact finding_sig_model. Qed.
-Print Assumptions c08_finding_sig_model.
 
 (* an implementation observable accepted by prop_case satisfies the property *)
 Theorem c08_prop_case_sound : forall inp obs,
@@ -319,8 +297,6 @@ Proof. exact float_pct_case. Qed.
 Print Assumptions c08_float_pct_case.
 
 (* ---- non-vacuity ---- *)
-Example c08_ex_timed : ops_timed w_ops2 = true.
-Proof. exact w_ops2_timed. Qed.
 Example c08_ex_filter_results : map fst (run_obs w_cfg [] w_ops2) = [0; 0; 0; 1; 0; 1].
 Proof. exact w_filter_results. Qed.
 Example c08_ex_filter_pass_and_reject :
@@ -329,8 +305,22 @@ Example c08_ex_filter_pass_and_reject :
 Proof. exact w_filter_pass. Qed.
 Example c08_ex_filter_expired : filter w_cfg (run w_cfg [OMetric 0 1 w_m_old]) w_node_big w_in = 3.
 Proof. exact w_filter_expired. Qed.
-Example c08_ex_untimed_detected : prop_code w_cfg w_ops (run_obs w_cfg [] w_ops) = 1.
-Proof. exact sticky_prop_code. Qed.
+(* regression for the defect fixed in /repo 56625eb: the OLD variant of AddOrUpdateNodeMetric
+   (previous update time kept) fails the drift clause on this history; the repaired one does not *)
+Example c08_ex_old_sticky_variant_drifts :
+  let c := set_metric_old w_cfg 1 w_m2 (run w_cfg [OReserve 0 1 w_pod; OMetric 0 1 w_m1]) in
+  exists n, alookup 1 c = Some n
+    /\ n_metric n = Some w_m2
+    /\ s_nodeDelta (n_sums n) = [0; 0]
+    /\ s_nodeDelta (fresh_sums w_cfg n) = [90; 209715200]
+    /\ node_code w_cfg (Some n) (observe_node w_cfg c 1) = 1.
+Proof. exact old_sticky_variant_drifts. Qed.
+Example c08_ex_untimed_report_no_drift :
+  exists n, alookup 1 (run w_cfg w_ops) = Some n
+    /\ n_metric n = Some w_m2
+    /\ s_nodeDelta (n_sums n) = [90; 209715200]
+    /\ fresh_sums w_cfg n = n_sums n.
+Proof. exact untimed_report_no_drift. Qed.
 Example c08_ex_float_tie :
   pct_float 115 200 = 57 /\ round_div (100 * 115) 200 = 58 /\ pct_float 131 200 = 66.
 Proof. exact w_float_tie. Qed.
